@@ -96,14 +96,34 @@ theorem readUntilExplicit_step (fuel : Nat) (cfg : Cfg) (b : Bytes)
     by_cases h : isInfix b (window (rb ++ c)
       (searchDepth Gen.Channel.inputSearchDepthMultiplier cfg.depth b.length)) = true <;> simp [h]
 
-/-- `ReadUntilExplicit`: the translated loop is `readUntilEv` with the exact echo predicate — the
-search depth is recomputed from the *input* length (`searchDepth mult depth len(b)`) -/
+/-- `ReadUntilExplicit`: an empty input returns `nil, nil` at once and consumes nothing (as
+`ReadUntilFuzzy` does; before the repair of finding C01-empty-command-exact the loop had no such
+exit, see `emptyCommand_prefix_loop_blocks`); otherwise the translated loop is `readUntilEv` with
+the exact echo predicate — the search depth is recomputed from the *input* length
+(`searchDepth mult depth len(b)`) -/
 theorem generated_ReadUntilExplicit_eq (fuel : Nat) (cfg : Cfg) (b : Bytes) (evs : List Ev)
     (hm : cfg.mult = Gen.Channel.inputSearchDepthMultiplier) (hx : cfg.exact = true)
     (hf : evs.length + 1 ≤ fuel) :
-    readUntilExplicit fuel cfg evs b = (readUntilEv (echoPred cfg b) evs []).map RRes.encode := by
+    readUntilExplicit fuel cfg evs b =
+      if b = [] then some ([], none, evs) else (readUntilEv (echoPred cfg b) evs []).map RRes.encode := by
   unfold readUntilExplicit
-  exact forLoop_readUntilEv _ _ (readUntilExplicit_step fuel cfg b hm hx) evs [] fuel hf
+  cases b with
+  | nil => simp [Go.len]
+  | cons x t =>
+    have h0 : (Go.len (x :: t) == 0) = false := by simp [Go.len]; omega
+    simp only [h0, Bool.false_eq_true, if_false, reduceCtorEq]
+    exact forLoop_readUntilEv _ _ (readUntilExplicit_step fuel cfg (x :: t) hm hx) evs [] fuel hf
+
+/-- Negative witness for finding C01-empty-command-exact: the loop as it was before the repair —
+`readUntilEv` with the exact echo predicate for *every* input, the empty one included — never
+returns on an idle device: however many times it polls an empty queue, it is still polling. (With
+the empty input its predicate holds of any text, but it is only tested after a chunk arrived, and
+a device echoes nothing for an empty input.) -/
+theorem emptyCommand_prefix_loop_blocks (cfg : Cfg) (n : Nat) :
+    readUntilEv (echoPred cfg []) (List.replicate n Ev.empty) [] = none := by
+  induction n with
+  | zero => rfl
+  | succ k ih => simpa [List.replicate_succ, readUntilEv] using ih
 
 theorem readUntilFuzzy_step (fuel : Nat) (cfg : Cfg) (b : Bytes)
     (hm : cfg.mult = Gen.Channel.inputSearchDepthMultiplier) (hx : cfg.exact = false) :
